@@ -82,6 +82,8 @@ SVC = {
     "s4": (0x3333, 7, 3, 0),
     "w3": (0x3333, ANY16, ANY8, ANY32),     # an instance configured with wildcard ids
     "s5": (0x1111, 1, 2, 0),                # same service and instance id as s1, next major version (served side by side)
+    "s6": (0x1111, 1, 1, 7),                # s1 with another MINOR version (only filters with a concrete minor version tell them apart)
+    "s7": (0x1111, 2, 1, 5),                # s2 with another minor version
 }
 RSVC = {v: k for k, v in SVC.items()}
 
